@@ -66,6 +66,13 @@ CLAIMED = {
              "MSTDP, MSTDPET x cumulative/nearest x 4 sign modes x dense/direct/lateral cells x no delay / per-synapse grid delays with delayed=True / "
              "delayed=False x batch 2 with sum/mean reduction.",
         ref="6/C08"),
+    "C09": dict(
+        text="Every trainer step on symbolic histories (T=3): each part handed to the updater is element-wise >= 0 and potentiation - depression equals "
+             "the rule's signed update, for STDP/TripletSTDP/MSTDP/MSTDPET with every combination of constructor sign mode and per-cell override sign mode "
+             "(with and without multiplicative upper/lower bounds: weight after update compared), for the 7 kernel / delay-adjusted weight and delay "
+             "variants x 4 sign modes with symbolic delays and per-sample signals, and for LinearHomeostasis on weight/bias/delay (signed rule "
+             "lambda (r*-r)/r*, direction toward the target). Direction lemmas: Hebbian causal pair strengthens, anti-causal weakens, negative reward flips.",
+        ref="6/C09"),
     "C10": dict(
         text="One updater application from an arbitrary symbolic parameter with 0-3 symbolic potentiating and depressing parts: param' = param + "
              "B_up(reduce(pos)) - B_lo(reduce(neg)) for reductions {default, sum, mean, amax, custom passed at construction} x bounding {none, upper, lower, "
